@@ -101,6 +101,51 @@ type strSrc struct{ s string }
 
 func (e strSrc) String() string { return e.s }
 
+// Types that have a text form of their own (MarshalText / UnmarshalText) AND another rendering
+// (String or Error) that differs from it. Only their round trip is judged: what the text producer
+// writes for them must be what their own UnmarshalText reads back.
+type dualStringer struct{ v []byte }
+
+func (d dualStringer) MarshalText() ([]byte, error) { return append([]byte("T:"), d.v...), nil }
+func (d dualStringer) String() string               { return "S:" + string(d.v) }
+
+type dualError struct{ v []byte }
+
+func (d dualError) MarshalText() ([]byte, error) { return append([]byte("T:"), d.v...), nil }
+func (d dualError) Error() string                { return "E:" + string(d.v) }
+
+type dualDest struct {
+	got   []byte
+	calls int
+}
+
+func (d *dualDest) UnmarshalText(b []byte) error {
+	d.calls++
+	if !bytes.HasPrefix(b, []byte("T:")) {
+		return fmt.Errorf("dual: %q is not the text form of this type", b)
+	}
+	d.got = append([]byte{}, b[2:]...)
+	return nil
+}
+
+var rtOnlySrc = []skind{
+	{"TextMarshaler+Stringer", supIface, func(_ *choice.Chooser, content []byte, _, _ int) src {
+		return src{data: dualStringer{cp(content)}}
+	}},
+	{"*TextMarshaler+Stringer", supIface, func(_ *choice.Chooser, content []byte, _, _ int) src {
+		return src{data: &dualStringer{cp(content)}}
+	}},
+	{"TextMarshaler+error", supIface, func(_ *choice.Chooser, content []byte, _, _ int) src {
+		return src{data: dualError{cp(content)}}
+	}},
+}
+var rtOnlyDst = []dkind{
+	{"dual TextUnmarshaler", supIface, func(*choice.Chooser, int) dst {
+		d := &dualDest{}
+		return dst{data: d, get: func() []byte { return d.got }}
+	}},
+}
+
 type jsonSrc struct {
 	S string `json:"s"`
 	N int    `json:"n"`
@@ -513,6 +558,12 @@ func runConsume(cs Case, content []byte, ch *choice.Chooser) verdict {
 		writeFault := d.w != nil && d.w.Faulted()
 		if err != nil {
 			if !readFault && !writeFault {
+				if rd.CloseFailed > 0 {
+					// the statement fixes WHEN the stream is closed, not what becomes of an error Close returns:
+					// reporting it and dropping it are both allowed
+					v.outcome = tag + "close-error-reported(MAY)"
+					return v
+				}
 				v.class, v.what = "unexpected-error", fmt.Sprintf("%s consumer failed on a fault-free stream into supported destination %s (content %s): %v", cs.Codec, k.name, q(content), err)
 				return v
 			}
@@ -669,6 +720,16 @@ func runProduce(cs Case, content []byte, ch *choice.Chooser) verdict {
 	case supConcrete, supIface, supJSON:
 		if err != nil {
 			if !writeFault && !readFault {
+				if w.CloseFailed > 0 || (s.payload != nil && s.payload.CloseFailed > 0) {
+					// only a Close failed: reporting it and dropping it are both allowed (see runConsume);
+					// the payload itself had been written before, and must be exact
+					if k.sup != supJSON && !bytes.Equal(w.Buf, s.expect) {
+						v.class, v.what = "written-mismatch", fmt.Sprintf("%s producer reported only the Close error; source bytes %s (%s), bytes written %s", cs.Codec, q(s.expect), k.name, q(w.Buf))
+						return v
+					}
+					v.outcome = tag + "close-error-reported(MAY)"
+					return v
+				}
 				v.class, v.what = "unexpected-error", fmt.Sprintf("%s producer failed on a fault-free writer for supported source %s (content %s): %v", cs.Codec, k.name, q(content), err)
 				return v
 			}
@@ -688,9 +749,11 @@ func runProduce(cs Case, content []byte, ch *choice.Chooser) verdict {
 			return v
 		}
 		if k.sup == supJSON {
+			// structs and slices cannot be "exactly the source bytes"; the doc comment says JSON, the statement
+			// says nothing about their encoding: recorded, not judged
 			got := reflect.New(reflect.TypeOf(s.jsonOf))
 			if e := json.Unmarshal(w.Buf, got.Interface()); e != nil || !reflect.DeepEqual(got.Elem().Interface(), s.jsonOf) {
-				v.class, v.what = "written-mismatch", fmt.Sprintf("%s producer wrote %s for %s %+v, which does not decode to the source value (%v)", cs.Codec, q(w.Buf), k.name, s.jsonOf, e)
+				v.outcome = tag + "struct-or-slice-written-in-another-form(unjudged)"
 				return v
 			}
 			v.outcome = tag + "written-as-json"
@@ -706,7 +769,8 @@ func runProduce(cs Case, content []byte, ch *choice.Chooser) verdict {
 			return v
 		}
 		if s.intact != nil && !s.intact() {
-			v.class, v.what = "source-modified", fmt.Sprintf("%s producer modified the source %s", cs.Codec, k.name)
+			// the statement does not speak of the source after the call: recorded, not judged
+			v.outcome = tag + "written-exactly-source-modified(unjudged)"
 			return v
 		}
 		// the same producer value used again must behave as a fresh one does
